@@ -112,6 +112,96 @@ CONTRACTS = [pair_criterion]
 LEMMAS = []
 
 
+# ------------------------------------------------------------------ _bonds_from_names: bonds and non-bonds of the reference block
+BIdx = TKey('BIdx')
+BPair = TTuple(BIdx, BIdx)
+
+
+def setup_bfn(cx):
+    graph = world(cx)
+    eng = cx.eng
+    name_of = cx.uf('name_of', [BIdx], TStr)                 # block.nodes[b]['atomname']
+    bedges = cx.val('block_edges', TSeq(BPair))              # block.edges
+    bnon = cx.val('block_non_edges', TSeq(BPair))            # networkx.non_edges(block)
+    cx.spec_env['block_edges'], cx.spec_env['block_non_edges'] = bedges, bnon
+    bnodes = Obj('NodeView', __getitem__=Builtin(
+        lambda e, b: Obj('blockatom', __getitem__=Builtin(lambda e2, k: SV(TStr, name_of(to_z3(b, BIdx))) if k == 'atomname' else
+                                                          (_ for _ in ()).throw(EngineError('block atom[%r]' % (k,))), 'blockatom[]')), 'block.nodes[]'))
+    block = Obj('Block', edges=bedges, nodes=bnodes)
+    cx.spec_env['nx'] = Obj('nx', non_edges=Builtin(lambda e, b: bnon, 'nx.non_edges'))
+    # positions only feed the `distance` attribute of the new edges, which the property does not mention
+    vec = Obj('vector')
+    vec.attrs['__sub__'] = Builtin(lambda e, o: vec, '-')
+    vec.attrs['__pow__'] = Builtin(lambda e, o: vec, '**')
+    cx.spec_env['np'] = Obj('numpy', array=Builtin(lambda e, x: vec, 'array'), full=Builtin(lambda e, *a: vec, 'full'), nan=0,
+                            sqrt=Builtin(lambda e, x: 0, 'sqrt'), sum=Builtin(lambda e, x: 0, 'sum'))
+    gnodes = graph.attrs['nodes']
+    old_item = gnodes.attrs['__getitem__']
+
+    def node_item(e, n):
+        o = e.call(old_item, [n], {})
+        o.attrs['get'] = Builtin(lambda e2, k, d=None: vec if k == 'position' else (_ for _ in ()).throw(EngineError('atom.get(%r)' % (k,))), 'atom.get')
+        return o
+    gnodes.attrs['__getitem__'] = Builtin(node_item, 'nodes[]')
+    return dict(graph=graph, block=block, mol_name_to_idx=cx.val('mol_name_to_idx', TMap(TStr, Node)))
+
+
+SPEC_BFN = {
+    'present': "lambda b: name_of(b) in mol_name_to_idx",
+    'atom': "lambda b: mol_name_to_idx[name_of(b)]",
+}
+bonds_from_names = FunctionContract(
+    F, '_bonds_from_names', 'C10', short='_bonds_from_names[block bonds and non-bonds]', setup=setup_bfn, spec_defs=SPEC_BFN,
+    spec_env=dict(Node=Node, PairKey=PairKey, BIdx=BIdx),
+    region=dict(start="for block_idx, block_jdx in block.edges:"),
+    locals=dict(non_edges=TSet(PairKey), g_w=TMap(PairKey, TInt), g_v=TMap(PairKey, TInt)), result_ty=TSet(PairKey),
+    ghost_at={'entry': "g_w = {}\ng_v = {}"},
+    ensures=[
+        # the name-based bonds are exactly the block's bonds among the atoms present (by atom name); existing bonds are kept
+        "forall(lambda q: implies(0 <= q and q < len(block_edges) and present(block_edges[q][0]) and present(block_edges[q][1]), "
+        "   pairkey(atom(block_edges[q][0]), atom(block_edges[q][1])) in EDGES))",
+        "forall(lambda k: implies(k in EDGES and not (k in old(EDGES)), 0 <= g_w[k] and g_w[k] < len(block_edges) and "
+        "   present(block_edges[g_w[k]][0]) and present(block_edges[g_w[k]][1]) and "
+        "   k == pairkey(atom(block_edges[g_w[k]][0]), atom(block_edges[g_w[k]][1]))), PairKey)",
+        "forall(lambda k: implies(k in old(EDGES), k in EDGES), PairKey)",
+        # the non-bonds handed to the distance search are exactly the block's non-bonds among the atoms present
+        "forall(lambda q: implies(0 <= q and q < len(block_non_edges) and present(block_non_edges[q][0]) and present(block_non_edges[q][1]), "
+        "   pairkey(atom(block_non_edges[q][0]), atom(block_non_edges[q][1])) in result))",
+        "forall(lambda k: implies(k in result, 0 <= g_v[k] and g_v[k] < len(block_non_edges) and present(block_non_edges[g_v[k]][0]) and "
+        "   present(block_non_edges[g_v[k]][1]) and k == pairkey(atom(block_non_edges[g_v[k]][0]), atom(block_non_edges[g_v[k]][1]))), PairKey)",
+    ],
+    modifies=['EDGES'],
+    loops={
+        'L1': LoopSpec(
+            inv=["forall(lambda q: implies(0 <= q and q < _i and present(block_edges[q][0]) and present(block_edges[q][1]), "
+                 "   pairkey(atom(block_edges[q][0]), atom(block_edges[q][1])) in EDGES))",
+                 "forall(lambda k: implies(k in EDGES and not (k in old(EDGES)), 0 <= g_w[k] and g_w[k] < _i and "
+                 "   present(block_edges[g_w[k]][0]) and present(block_edges[g_w[k]][1]) and "
+                 "   k == pairkey(atom(block_edges[g_w[k]][0]), atom(block_edges[g_w[k]][1]))), PairKey)",
+                 "forall(lambda k: implies(k in old(EDGES), k in EDGES), PairKey)"],
+            modifies=['EDGES', 'g_w'], locals=dict(g_w=TMap(PairKey, TInt)),
+            ghost_pre="g_E = set(EDGES)",
+            ghost_end="if block_idx_name in mol_name_to_idx and block_jdx_name in mol_name_to_idx:\n"
+                      "    if not (frozenset((graph_idx, graph_jdx)) in g_E):\n"
+                      "        g_w[frozenset((graph_idx, graph_jdx))] = _i"),
+        'L2': LoopSpec(
+            inv=["forall(lambda q: implies(0 <= q and q < _i and present(block_non_edges[q][0]) and present(block_non_edges[q][1]), "
+                 "   pairkey(atom(block_non_edges[q][0]), atom(block_non_edges[q][1])) in non_edges))",
+                 "forall(lambda k: implies(k in non_edges, 0 <= g_v[k] and g_v[k] < _i and present(block_non_edges[g_v[k]][0]) and "
+                 "   present(block_non_edges[g_v[k]][1]) and k == pairkey(atom(block_non_edges[g_v[k]][0]), atom(block_non_edges[g_v[k]][1]))), PairKey)"],
+            modifies=['non_edges', 'g_v'], locals=dict(non_edges=TSet(PairKey), g_v=TMap(PairKey, TInt)),
+            ghost_pre="g_N = set(non_edges)",
+            ghost_end="if block_idx_name in mol_name_to_idx and block_jdx_name in mol_name_to_idx:\n"
+                      "    if not (frozenset((mol_name_to_idx[block_idx_name], mol_name_to_idx[block_jdx_name])) in g_N):\n"
+                      "        g_v[frozenset((mol_name_to_idx[block_idx_name], mol_name_to_idx[block_jdx_name]))] = _i"),
+    },
+    canary=[("graph.add_edge(graph_idx, graph_jdx, distance=dist)", "graph.add_edge(graph_idx, graph_idx, distance=dist)"),
+            ("if block_idx_name in mol_name_to_idx and block_jdx_name in mol_name_to_idx:\n            non_edges.add",
+             "if block_idx_name in mol_name_to_idx or block_jdx_name in mol_name_to_idx:\n            non_edges.add")],
+)
+CONTRACTS.append(bonds_from_names)
+
+
 # ------------------------------------------------------------------ make_bonds: which distance searches are run, with what
 ResKey = TTuple(TInt, TStr, TInt, TStr, TStr)               # (mol_idx, chain, resid, resname, insertion_code)
 Call = TTuple(TInt, TReal, TBool, names=['residue', 'fudge', 'non_edges_given'])   # residue = -1: the whole system
